@@ -23,11 +23,13 @@ def run_check(prop, tier, repo=None):
     except ModuleNotFoundError:
         print(f'ANALYSIS-ERROR property={prop}: no rule set')
         return 2
+    if tier == 'thorough':
+        os.environ['CARDVERIF_DEEP'] = '1'
     try:
         prog = Program(repo)
         res = Result(prop)
         mod.check(prog, res, tier)
-        if tier == 'thorough' and hasattr(mod, 'selftest'):
+        if tier == 'thorough' and not repo:
             from . import selftest
             res.selftest = selftest.run(prop, mod)
         return finish(res, tier, t0, seed)
